@@ -6,6 +6,7 @@ C07-DETACH      janet_continue_no_check detaches listeners (janet_fiber_did_resu
 """
 from jv.facts import Program, AnalysisBroken
 from jv.util import is_ref, is_mem, strip_casts
+from jv import flow
 from rules import sched
 
 EXPLANATION = (
@@ -293,6 +294,7 @@ def run(chk):
     _detach_rule(chk, prog)
     _timeout_rule(chk, prog)
     _timernow_rule(chk, prog)
+    _cbgrow_rule(chk, prog)
     from rules.c14 import _castrange_rule
     _castrange_rule(chk, prog.tus["ev.c"], rule="C07-TIMECAST",
                     desc="a duration is converted to the timer queue's integer timestamp only after NaN and out-of-range values were excluded "
@@ -326,3 +328,50 @@ def _timernow_rule(chk, prog):
                               "`%s` does not measure the timer from ts_now() read at this registration: a base that is older than the "
                               "registration lets the timer fire before its duration has passed" % x.text()[:70])
     chk.floor(rule, 4, n)
+
+
+def _cbgrow_rule(chk, prog):
+    """An event callback runs with its fiber attached to the stream and, possibly, a timeout armed - from the loop, or
+    (the INIT step) from inside the awaiting function after both were set up.  It reports failure with janet_cancel +
+    janet_async_end, which go through the scheduler and invalidate the registration and the timer.  Growing a buffer
+    by a caller-chosen amount raises `buffer overflow` when count + n passes INT32_MAX - reachable with an ordinary
+    argument, (ev/read s 0x7fffffff @"x" 0.3) - so the callback has to test for that itself first."""
+    rule = "C07-CBGROW"
+    chk.rule(rule, "an event callback grows a buffer by a requested amount only after comparing the buffer's count with INT32_MAX minus that amount (a raise would leave the listener and the timeout behind)")
+    n = 0
+    for fn in prog.all_funcs():
+        ps = fn.params
+        if not (len(ps) == 2 and "JanetAsyncEvent" in ps[1]["t"] and "JanetFiber" in ps[0]["t"]):
+            continue
+        grows = [c for c in fn.calls("janet_buffer_extra", "janet_buffer_ensure", "janet_buffer_setcount")
+                 if len(c.args) >= 2 and strip_casts(c.args[1]).k != "int"]
+        if not grows:
+            continue
+        chk.analysed(fn)
+        IN, T = flow.condition_facts(fn)
+        res = {}
+        for x, S in flow.states_at(fn, IN, T):
+            if x in grows:
+                amt = set(r.name for r in x.args[1].walk() if r.k == "ref")
+                def guarded(ps_):
+                    for (op, l, r, toks, ln, rn) in ps_:
+                        if ln is None or rn is None:
+                            continue
+                        both = list(ln.walk()) + list(rn.walk())
+                        if any(y.k == "mem" and y.field == "count" and y.rec == "JanetBuffer" for y in both) and \
+                                any("INT32_MAX" in y.macro_names() or y.v == 2 ** 31 - 1 for y in both) and (amt & set(toks)):
+                            return True
+                    return False
+                res[id(x)] = bool(S) and all(guarded(ps_) for ps_ in S)
+        for c in grows:
+            n += 1
+            chk.instance(rule)
+            if res.get(id(c)):
+                chk.ok(rule, "%s: `%s` after the overflow test" % (fn.name, c.text()[:50]))
+            else:
+                chk.violation(rule, fn.tu.name, fn.name, "grow:" + strip_casts(c.args[1]).text().replace(" ", ""), c.loc,
+                              "`%s` raises `buffer overflow` when the buffer's count plus the requested amount passes INT32_MAX; inside "
+                              "this callback the fiber is already attached to the stream and its timeout armed, and a raise undoes "
+                              "neither: the stale timeout fires into the fiber's next wait, or its next stream operation aborts the "
+                              "process (`double async on fiber`)" % c.text()[:50])
+    chk.floor(rule, 1, n)
